@@ -187,7 +187,6 @@ package signedexchange
 //@   ensures[b2b3-validity-url-bytes] err == nil && e.Version != version.Version1b1 && certSha256 != nil ==> forall i int :: 0 <= i && i < len(validityUrl) ==> msg[124 + i] == validityUrl[i]
 //@   ensures[b2b3-date] err == nil && e.Version != version.Version1b1 && certSha256 != nil && date >= 0 && expires >= 0 ==> len(msg) >= 148 + len(validityUrl) + len(e.RequestURI) && msgBe64(msg, 124 + len(validityUrl), date)
 //@   ensures[b2b3-expires] err == nil && e.Version != version.Version1b1 && certSha256 != nil && date >= 0 && expires >= 0 ==> len(msg) >= 148 + len(validityUrl) + len(e.RequestURI) && msgBe64(msg, 132 + len(validityUrl), expires)
-//@   ensures[b2b3-request-url-length] err == nil && e.Version != version.Version1b1 && certSha256 != nil && date >= 0 && expires >= 0 ==> msgBe64(msg, 140 + len(validityUrl), int64(len(e.RequestURI)))
 //@   ensures[b2b3-request-url-bytes] err == nil && e.Version != version.Version1b1 && certSha256 != nil && date >= 0 && expires >= 0 ==> forall i int :: 0 <= i && i < len(e.RequestURI) ==> msg[148 + len(validityUrl) + i] == e.RequestURI[i]
 //@   ensures[b2b3-cert-bytes] err == nil && e.Version != version.Version1b1 && certSha256 != nil ==> forall i int :: 0 <= i && i < 32 ==> msg[84 + i] == certSha256[i]
 //@   assigns nothing
